@@ -178,9 +178,17 @@ func c03wCheckSlice(site string, brk bool, got BioSequenceSlice, err error, want
 	return "", ""
 }
 
+// c03wExit is what the logrus ExitFunc of the test panics with: a log.Fatal inside a combinator is an outcome
+// of the case (recovered in c03wRun), not the end of the shard.
+type c03wExit struct{ code int }
+
 func c03wRun(c c03wCase) (key, desc string) {
 	defer func() {
 		if e := recover(); e != nil {
+			if x, ok := e.(c03wExit); ok {
+				key, desc = c.Fn+"/log-fatal", fmt.Sprintf("the combinator ends the program (log.Fatal, exit status %d)", x.code)
+				return
+			}
 			key, desc = c.Fn+"/panic", fmt.Sprint(e)
 		}
 	}()
@@ -376,6 +384,7 @@ func c03wRun(c c03wCase) (key, desc string) {
 
 func TestVerifC03W(t *testing.T) {
 	log.SetOutput(io.Discard)
+	log.StandardLogger().ExitFunc = func(code int) { panic(c03wExit{code}) }
 	r := verifkit.New("C03")
 	defer r.Write()
 
